@@ -325,9 +325,20 @@ def kill_run(cfg, kills):
         last["counter"] = data.model.likelihood_evaluations
         last["time"] = data.model.likelihood_evaluation_time
         last["stime"] = data.sampling_time
+        # was this checkpoint written from inside the replace step (checkpoint_on_training after an
+        # empty pool)?  Such a file holds a half-updated sampler (known finding F29).
+        import sys as _sys
+
+        f_, inside = _sys._getframe(1), False
+        while f_ is not None:
+            if f_.f_code.co_name == "consume_sample":
+                inside = True
+                break
+            f_ = f_.f_back
+        last["mid_iteration"] = inside
         # a sampler that was itself restored from a checkpoint must again write checkpoints that
         # restore to what it is (second and later generations; the first few checkpoints of the leg)
-        if legs > 1 and leg.get("gen_checks", 0) < 3:
+        if legs > 1 and leg.get("gen_checks", 0) < 12:
             leg["gen_checks"] = leg.get("gen_checks", 0) + 1
             n0 = len(errs)
             clk_t, clk_r = clk.t, clk.reads
@@ -335,6 +346,9 @@ def kill_run(cfg, kills):
             clk.t, clk.reads = clk_t, clk_r
             for i_ in range(n0, len(errs)):
                 errs[i_] = ("generation-2:" + errs[i_][0], errs[i_][1])
+        leg["n_ckpt"] = leg.get("n_ckpt", 0) + 1
+        if leg.get("ckpt_kill") is not None and leg["n_ckpt"] == leg["ckpt_kill"] and not getattr(data, "finalised", False):
+            raise KillSignal(f"after checkpoint {leg['n_ckpt']}")
         return r
 
     sbase.safe_file_dump = dump
@@ -372,6 +386,8 @@ def kill_run(cfg, kills):
                         errs.append(("evaluation-count-after-resume-differs-from-the-count-at-the-last-checkpoint", f"leg {legs} starts from {c0}; the last completed checkpoint was written when the counter was {last['counter']}"))
                     if legs > 1 and last["time"] is not None and model.likelihood_evaluation_time < last["time"] - datetime.timedelta(milliseconds=1):
                         errs.append(("likelihood-time-after-resume-below-the-time-at-the-last-checkpoint", f"{model.likelihood_evaluation_time} < {last['time']}"))
+                    if legs > 1 and last.get("mid_iteration"):
+                        leg["from_mid_iteration"] = True
                     if legs > 1 and last["time"] is not None and model.likelihood_evaluation_time != last["time"]:
                         errs.append(("likelihood-time-after-resume-differs-from-the-time-at-the-last-checkpoint", f"{model.likelihood_evaluation_time} vs {last['time']}"))
                     st0 = fs.ns.sampling_time
@@ -381,8 +397,14 @@ def kill_run(cfg, kills):
                     leg.pop("t_loop", None)
                     leg.update(gen_checks=0, ck_prev=None, guard=g, c0=c0, rows_setup=g.rows, lt0=vclock.seconds(model.likelihood_evaluation_time), s0=vclock.seconds(st0), t_start=clk.t)
                     g.kcalls = 0
+                    leg["n_ckpt"], leg["ckpt_kill"] = 0, None
                     if kills:
-                        g.kill_call = kills.pop(0)
+                        kc = kills.pop(0)
+                        # ("ckpt", j): the process dies right after the j-th checkpoint of this leg is complete
+                        if isinstance(kc, (tuple, list)) and kc[0] == "ckpt":
+                            g.kill_call, leg["ckpt_kill"] = None, int(kc[1])
+                        else:
+                            g.kill_call = kc
                     else:
                         g.kill_call = None
                     g.clock = clk
@@ -433,7 +455,7 @@ def kill_run(cfg, kills):
     if fs is not None and not errs:
         (runs.check_std_results if kind == "std" else runs.check_ins_results)(fs, model, errs)
     shutil.rmtree(out, ignore_errors=True)
-    return dict(errs=errs, legs=legs, calls=total_calls, finished=fs is not None, logZ=None if fs is None else float(fs.logZ))
+    return dict(errs=errs, legs=legs, calls=total_calls, finished=fs is not None, logZ=None if fs is None else float(fs.logZ), from_mid_iteration=bool(leg.get("from_mid_iteration")))
 
 
 def _arm(g):
@@ -458,6 +480,10 @@ def kill_worker(item):
     seen, viol = set(), []
     key = runs.cfg_key(cfg)
     for k_, d in r["errs"]:
+        if r.get("from_mid_iteration"):
+            # one underlying history: a leg resumed from a checkpoint that checkpoint_on_training wrote
+            # from inside consume_sample (worst point recorded, not yet replaced)
+            k_ = "resumed-from-a-checkpoint-written-inside-the-replace-step"
         if k_ not in seen:
             seen.add(k_)
             viol.append((f"kill:{k_}@{key}", f"{k_}: {d} (kills at likelihood calls {kills}, config {cfg})", {"mode": "kill", "cfg": cfg, "kills": list(kills)}))
@@ -522,8 +548,10 @@ KILL_CFGS = [
     # and the first checkpoint opportunity after a resume sees the whole down time
     {"kind": "std", "model": "G2", "seed": 0, "kwargs": {"nlive": 10, "poolsize": 10, "checkpoint_on_iteration": False, "checkpoint_interval": 15, "maximum_uninformed": 10}},
     {"kind": "ins", "model": "G2", "seed": 0, "kwargs": {"max_iteration": 3, "checkpoint_on_iteration": False, "checkpoint_interval": 120}},
+    # checkpoint_on_training with every periodic check writing a file (known finding F29)
+    {"kind": "std", "model": "G2", "seed": 0, "kwargs": {"nlive": 10, "poolsize": 10, "maximum_uninformed": 10, "training_frequency": 3, "checkpoint_on_training": True, "checkpoint_on_iteration": False, "checkpoint_interval": 0}},
     # trainings while the pool is still populated, each followed by a checkpoint
-    {"kind": "std", "model": "G2", "seed": 0, "kwargs": {"nlive": 10, "poolsize": 10, "maximum_uninformed": 10, "training_frequency": 3, "checkpoint_on_training": True, "checkpoint_on_iteration": False, "checkpoint_interval": 15}},
+    {"kind": "std", "model": "G2", "seed": 0, "kwargs": {"nlive": 10, "poolsize": 10, "maximum_uninformed": 10, "training_frequency": 3, "cooldown": 2, "checkpoint_on_training": True, "checkpoint_on_iteration": False, "checkpoint_interval": 0}},
 ]
 
 
@@ -581,6 +609,10 @@ def run(ctx):
         pairs = [(a, b) for a in range(1, n + 1, max(1, n // (4 if ctx.quick else 12))) for b in (1, 2, max(1, n // 3))]
         for a, b in pairs:
             items.append((cfg, (a, b)))
+        # the process dies right after its j-th checkpoint is complete (pool populated or not, trained
+        # or not): the resumed sampler's own checkpoints are compared with their restored copies
+        for j in (range(1, 41, 3) if ctx.quick else range(1, 61)):
+            items.append((cfg, (("ckpt", j),)))
     for it, res in ctx.pmap(kill_worker, items):
         ctx.count("evaluations")
         ctx.count("kill_histories")
